@@ -15,7 +15,7 @@ a fresh id, and every use gets the id of exactly the declaration lexical scoping
 
 Two defects were found while stating these theorems at full strength:
   F4   (fixed in /repo)  `leaveScope` replayed its undo log oldest-first       -> `varmap_oldorder_counterexample`
-  F18  (known finding)   an enumerator that hides a variable is invisible to the `VariableMap`
+  F8b  (known finding)   an enumerator that hides a variable is invisible to the `VariableMap`
                                                                                -> `varmap_enum_counterexample`, `_partial` theorems
 -/
 namespace Cppcheck.VarMap
@@ -36,7 +36,7 @@ theorem varmap_refines (ops : List Op) (h : noHide ops = true) (x : VName) :
       (slookup (sexec Spec.init ops).inner (sexec Spec.init ops).glob x).getD 0 :=
   varmap_refines_partial ops (noVarHidden_of_noHide ops _ h) x
 
-/-- **F18**: the full-strength statement is false — `int x; enum { x };` : lexical scoping now binds `x` to the
+/-- **F8b**: the full-strength statement is false — `int x; enum { x };` : lexical scoping now binds `x` to the
 enumerator (not a variable, id 0), the `VariableMap` still answers with the variable's id 1. -/
 theorem varmap_enum_counterexample :
     ¬ ∀ (ops : List Op) (x : VName),
@@ -89,18 +89,18 @@ theorem resolve_eq_spec_partial (p : Prog) (h : progOK [] p = true) (hv : noEnum
   have h2 := srun_implProg p [] 0
   simpa [resolve, specProg, Spec.init] using h1.trans h2
 
-/-- the F18 witness as a scope program: `int v0; int f(void) { enum { v0 }; return v0; }` -/
-def f18Prog : Prog := [.gdecl 0 [], .func [] (.cons (.enumd 0 []) (.cons (.expr [.loc 0]) .nil))]
+/-- the F8b witness as a scope program: `int v0; int f(void) { enum { v0 }; return v0; }` -/
+def f8bProg : Prog := [.gdecl 0 [], .func [] (.cons (.enumd 0 []) (.cons (.expr [.loc 0]) .nil))]
 
-/-- **F18 on programs**: the full-strength statement is false; the model (as the real tokenizer) links the `return v0`
+/-- **F8b on programs**: the full-strength statement is false; the model (as the real tokenizer) links the `return v0`
 to the file-scope variable, lexical scoping binds it to the enumerator -/
 theorem resolve_enum_counterexample : ¬ ∀ p : Prog, progOK [] p = true → resolve p = specProg p := by
   intro h
-  have := h f18Prog (by decide)
+  have := h f8bProg (by decide)
   revert this
   decide
 
-example : resolve f18Prog = [1, 0, 1] ∧ specProg f18Prog = [1, 0, 0] := by decide
+example : resolve f8bProg = [1, 0, 1] ∧ specProg f8bProg = [1, 0, 0] := by decide
 
 /-- the F4 witness as a scope program: `int f(int v0) { for (int v0 = 0; ; ) { int v0; } return v0; }` -/
 def f4Prog : Prog :=
